@@ -17,7 +17,7 @@ type dcase struct {
 	origin string // synth | diff | diff-mut | random | trunc
 	target []byte // for origin diff: the target DiffDelta was asked to encode
 	hasTgt bool
-	level  int // zlib level used when the delta is embedded in a pack
+	level  int  // zlib level used when the delta is embedded in a pack
 	full   bool // run every applier variant (first cases of each model class)
 }
 
